@@ -117,6 +117,18 @@ def run_case(case):
                                       "detail": "sampled collocation times differ from t_start+h*tau by %.3g" % worst})
             break
         if it == 0:
+            ind = coords.independence_defect(rb, view, spec, w)
+            if ind is not None:
+                res["evals"] += 1
+                res["counters"]["independent_coordinates"] = ind[0]
+                if ind[1] != ind[0]:
+                    res["violations"].append({
+                        "kind": "coordinates-not-independent", "mech": "C02|coordinates-share-decision-variables",
+                        "detail": "%d states / helper states / algebraic values / controls / variables are separate "
+                                  "degrees of freedom of the collocation scheme, their read-back spans only %d "
+                                  "directions of the decision vector" % ind})
+                    break
+        if it == 0:
             res["sample"] = {"spec": C.spec_digest(spec), "w0": C.short(w[:6]),
                              "first_expected_defects": C.short([v for _, v in exp[:5]]), "n_defects": len(exp)}
     res["nontrivial"] = res["evals"] > 0
